@@ -121,10 +121,24 @@ def cases(tier, rng):
                     ops += ["feed %s %s" % (c, W.tok(W.msg([b"", b"ok"]))) for c in names] + ["recv"]
             out.append("d%d sock %s / %s" % (k, t, " / ".join(ops)))
             k += 1
-    # known class: a peer re-joins under its old identity while its stale id is still queued
-    out.append("z%d sock DEALER / attach a ROUTER id=41 / attach b ROUTER id=42 / feed a 0009aabb / eof a / recv / attach c ROUTER id=41 / "
-               "send 31 / wire b / wire c / send 32 / wire b / wire c / send 33 / wire b / wire c / send 34 / wire b / wire c / send 35 / wire b / wire c / send 36 / wire b / wire c" % k)
-    k += 1
+    # a peer re-joins under its old identity while its stale id is still queued (the loss was noticed by recv, or not noticed
+    # at all: the old connection is simply superseded): it takes that entry over - one turn per round, as before
+    # (until /repo 6c4dd95 this was the listed finding rr-duplicate-id-after-rejoin)
+    for ida, idb in ((b"A", b"B"), (b"x" * 255, b"y")):
+        sends = " / ".join("send %02x / wire b / wire c" % (0x31 + i) for i in range(6))
+        out.append("z%d sock DEALER / attach a ROUTER id=%s / attach b ROUTER id=%s / feed a 0009aabb / eof a / recv / attach c ROUTER id=%s / %s"
+                   % (k, W.tok(ida), W.tok(idb), W.tok(ida), sends))
+        k += 1
+        for t in ("DEALER", "PUSH"):
+            out.append("z%d sock %s / attach a %s id=%s / attach b %s id=%s / attach c %s id=%s / %s"
+                       % (k, t, peer(t), W.tok(ida), peer(t), W.tok(idb), peer(t), W.tok(ida), sends))
+            k += 1
+            out.append("z%d sock %s / attach a %s id=%s / attach b %s id=%s / send 2d / wire a / wire b / attach c %s id=%s / %s"
+                       % (k, t, peer(t), W.tok(ida), peer(t), W.tok(idb), peer(t), W.tok(ida), sends))
+            k += 1
+        rq = " / ".join("send %02x / wire b / wire c / feed b %s / feed c %s / recv" % (0x31 + i, W.tok(W.msg([b"", b"ok"])), W.tok(W.msg([b"", b"ok"]))) for i in range(6))
+        out.append("z%d sock REQ / attach a REP id=%s / attach b REP id=%s / attach c REP id=%s / %s" % (k, W.tok(ida), W.tok(idb), W.tok(ida), rq))
+        k += 1
     # a peer whose connection FAILS ON A SEND leaves the rotation at once; when it re-joins under its old identity the
     # rotation over the two peers must be exact again (this is not the listed finding: there the loss is noticed by recv
     # and a stale entry is known to stay queued)
@@ -277,6 +291,31 @@ def judge(line, obs, orc):
     t, po = S.pair_ops_obs(line, obs)
     if line.startswith("r"):
         return script_judge(line, po, t)
+    if line.startswith("z"):
+        seq, i = [], 0
+        rejoined = False
+        while i < len(po):
+            op, tk = po[i]
+            if op[0] == "attach" and op[1] == "c":
+                rejoined = True
+            if op[0] == "send":
+                wires = {}
+                j = i + 1
+                while j < len(po) and po[j][0][0] == "wire":
+                    wires[po[j][0][1]] = po[j][1].split("=", 1)[1]
+                    j += 1
+                if rejoined:
+                    got = [c for c, wv in wires.items() if wv != "-"]
+                    if tk != "s=ok" or len(got) != 1:
+                        return "send after the re-join did not reach exactly one peer: %s %s" % (tk[:60], {c: v[:30] for c, v in wires.items()})
+                    seq.append(got[0])
+                i = j
+                continue
+            i += 1
+        if any(x == y for x, y in zip(seq, seq[1:])):
+            return ("a peer that re-joined under its old identity (its earlier connection's entry still queued) is served twice "
+                    "per round: sends reached %s" % seq)
+        return None
     if line.startswith("j"):
         seq, failed, i = [], 0, 0
         rejoined = False
@@ -351,8 +390,6 @@ def judge(line, obs, orc):
         window = hits[a:a + n]
         if len(window) == n and all(w[1] == peers for w in window):
             if len(set(w[0] for w in window)) != n:
-                if line.startswith("z"):
-                    return "KNOWN:" + KNOWN
                 return "%d consecutive sends with a stable set of %d peers reached %s" % (n, n, [w[0] for w in window])
     return None
 
